@@ -24,6 +24,9 @@ def main():
         from .worker import make_lib
         lib = make_lib(C)
         for case, specs in C.cases():
+            import os
+            if os.environ.get("PYVC_CASE") and os.environ["PYVC_CASE"] not in str(case):
+                continue
             t0 = time.time()
             run = Run(C, case, reg, contracts, lib)
             try:
@@ -34,10 +37,10 @@ def main():
                 continue
             dt = time.time() - t0
             bad = [o for o in run.obls.values() if o.verdict != "proved"]
-            print("%s %s: %d paths, %d obligations, %d not proved, %.2fs (solver %.2fs)" % (name, run.case_label(), run.npaths, len(run.obls), len(bad), dt, run.solver_s))
+            print("%s %s: %d paths, %d obligations, %d not proved, %.2fs (solver %.2fs)" % (name, run.case_label(), run.npaths, len(run.obls), len(bad), dt, run.solver_s), flush=True)
             for o in run.obls.values():
                 if o.verdict != "proved" or "-v" in sys.argv:
-                    print("   ", o.verdict, o.oid, "line", o.line, o.detail, "%.2fs" % o.time)
+                    print("   ", o.verdict, o.oid, "line", o.line, o.detail, "%.2fs" % o.time, flush=True)
 
 
 if __name__ == "__main__":
